@@ -64,10 +64,10 @@ type scenario struct {
 	// volume: renames between the two fail with EXDEV.
 	TmpElsewhere bool
 	Cmd          string // "fmt" | "render"
-	Args    []string
-	Files   []fileSpec
-	Targets []string // names of files the property speaks about
-	Desc    string
+	Args         []string
+	Files        []fileSpec
+	Targets      []string // names of files the property speaks about
+	Desc         string
 }
 
 func genUnformatted(tp *tape.Tape, thorough bool) string {
